@@ -7,6 +7,7 @@ package rules
 // C03.readers / C03.roots - clauses decided by sibling rule sets, borrowed under C03 ids.
 
 import (
+	"go/token"
 	"os"
 	"strings"
 
@@ -197,7 +198,7 @@ func c03Seek(r *fw.Run, c *c03x) {
 						g1 := c03Norm(eg[len(eg)-1])
 						for _, g2 := range fw.Guards(s.Block()) {
 							g2 = c03Norm(g2)
-							if g1.True != g2.True && c.sameCond(g1.Cond, g2.Cond) {
+							if (g1.True != g2.True && c.sameCond(g1.Cond, g2.Cond)) || c.contradict(g1, g2) {
 								contrary = true
 							}
 						}
@@ -325,6 +326,90 @@ func (c *c03x) sameCond(a, b ssa.Value) bool {
 	return same(x.X, y.X) && same(x.Y, y.Y)
 }
 
+// contradict: two guards compare the same subject (a value, or len of a value) with integer constants
+// and cannot hold together (len(fns) <= 0 and len(fns) != 0; n > 0 and n == 0 ...). Decided by trying
+// the integers around the constants involved (a len is never negative).
+func (c *c03x) contradict(g1, g2 fw.Guard) bool {
+	type pred struct {
+		subj  ssa.Value // canonical subject; for len(x) the canonical x
+		isLen bool
+		op    token.Token // subject OP k
+		k     int64
+		hold  bool
+	}
+	parse := func(g fw.Guard) (pred, bool) {
+		bo, ok := g.Cond.(*ssa.BinOp)
+		if !ok {
+			return pred{}, false
+		}
+		op := bo.Op
+		x, y := c.canon(bo.X), c.canon(bo.Y)
+		k, isK := c03ConstInt(y)
+		if !isK {
+			k, isK = c03ConstInt(x)
+			if !isK {
+				return pred{}, false
+			}
+			x = y
+			switch op { // k OP x  ==  x OP' k
+			case token.LSS:
+				op = token.GTR
+			case token.LEQ:
+				op = token.GEQ
+			case token.GTR:
+				op = token.LSS
+			case token.GEQ:
+				op = token.LEQ
+			}
+		}
+		switch op {
+		case token.LSS, token.LEQ, token.GTR, token.GEQ, token.EQL, token.NEQ:
+		default:
+			return pred{}, false
+		}
+		p := pred{subj: x, op: op, k: k, hold: g.True}
+		if call, ok := x.(*ssa.Call); ok && fw.IsBuiltinCall(call, "len") {
+			p.subj, p.isLen = c.canon(call.Common().Args[0]), true
+		}
+		return p, true
+	}
+	eval := func(p pred, v int64) bool {
+		var r bool
+		switch p.op {
+		case token.LSS:
+			r = v < p.k
+		case token.LEQ:
+			r = v <= p.k
+		case token.GTR:
+			r = v > p.k
+		case token.GEQ:
+			r = v >= p.k
+		case token.EQL:
+			r = v == p.k
+		case token.NEQ:
+			r = v != p.k
+		}
+		return r == p.hold
+	}
+	p1, ok1 := parse(g1)
+	p2, ok2 := parse(g2)
+	if !ok1 || !ok2 || p1.subj != p2.subj || p1.isLen != p2.isLen {
+		return false
+	}
+	for _, k := range []int64{p1.k, p2.k} {
+		for dv := int64(-1); dv <= 1; dv++ {
+			v := k + dv
+			if p1.isLen && v < 0 {
+				continue
+			}
+			if eval(p1, v) && eval(p2, v) {
+				return false
+			}
+		}
+	}
+	return true
+}
+
 // c03Borrow: clauses of C03 that sibling rule sets already decide, imported under C03 rule ids.
 func c03Borrow(r *fw.Run, p *fw.Program) {
 	dump := os.Getenv("C03_KEYS") != ""
@@ -348,6 +433,14 @@ func c03Borrow(r *fw.Run, p *fw.Program) {
 			c03DumpKeys(sc)
 		}
 		r.Import(sc, "C04.opts", "C03.cover", "a nested format decoded from a delimited range (explicit length/range, separate buffer, top level) is decoded with FillGaps, so that its value's range is exactly the range it was given (what the position advances by), the unread bits being its own gap children rather than the parent's; open-ended nested decodes (Range.Len = BitsLeft()) are not filled and advance by the decoded extent; IsRoot exactly for a reader that is not the parent's buffer (C04.opts obligations)", 13, nil)
+	}
+	{
+		sc := r.Scratch()
+		c01Seek(sc, p)
+		if dump {
+			c03DumpKeys(sc)
+		}
+		r.Import(sc, "C01.seek", "C03.lower", "the lower bound of the position invariant (C03.inside decides the upper one): every computing seeker of pkg/bitio - the readers a decoder can sit on: the section window of a nested format or frame, byte/IO readers, multi and padding readers - computes the target per whence relative to its own base and refuses a target before its start, so no decoder position (and no zero-length value) lies before the window it decodes (C01.seek obligations)", 24, nil)
 	}
 	{
 		sc := r.Scratch()
